@@ -17,11 +17,13 @@ What is proved here, for all inputs:
                          writers need (`#OFFSET` = first tempo point: D14; key count from the chart type: D15) are read off
                          the generated converter table, so a source change breaks a proof obligation;
 * `offset_established_*` the writer hypothesis "`#OFFSET` = first tempo point" follows for the rule of `OsuToSM`
-                         unconditionally, for the rule `0.0` of `BMSToSM` / `O2JToSM` when the source's first tempo point is
-                         at 0 ms (`o2j_first_tempo_at_zero`: always so for an O2Jam level), and NOT for `QuaToSM`'s
-                         minimum over all rows (`quaToSM_offset_counterexample`: open finding N09a);
+                         and `QuaToSM` unconditionally, for the rule `0.0` of `BMSToSM` / `O2JToSM` when the source's first tempo point is
+                         at 0 ms (`o2j_first_tempo_at_zero`: always so for an O2Jam level), and NOT for the
+                         pre-D42 minimum over all rows (`minAll_offset_counterexample`; `QuaToSM` now uses the first rule);
 * `content_carried`      (link 2, from C08) for each of the 17 generated converter entries a successful conversion returns
                          one chart per source chart with the same hits / holds / tempo rows, columns shifted by the argument;
+* `contentOk_abstract`, `convert_write_qua_objects_partial`  links 2 + 3 chained over `AChart` for Quaver targets (all 17
+                         converter entries): the written document carries the SOURCE chart's hits and holds;
 * `into_qua_objects_partial`  (link 3 for Quaver, from C06 `qua_write_denotes`) the written document's denotation has the
                          chart's hits and holds, every head and tail within the `ms` resolution.  `_partial`: the tempo
                          timeline of the written document is `quantize`d too (C06), but that the *normalised* timelines pair
@@ -32,6 +34,7 @@ the parts' theorems; they are stated over the parts' own model types and are not
 (the embedding of each format's chart into C08's frames is the missing glue).
 -/
 import Reamber.Lemmas.Pipeline
+import Reamber.Lemmas.PipelineConv
 import Reamber.Generated.SMTables
 import Reamber.Generated.PipelineTables
 import Reamber.Generated.Converters
@@ -106,11 +109,12 @@ def offsetRuleOf : Convert.MetaExpr → Option OffsetRule
   | .opaque "qua.stack().offset.min()" => some .minAll
   | _ => none
 
-/-- **every converter into StepMania sets the offset, and by which rule** (D14: `OsuToSM` had `0.0`) -/
+/-- **every converter into StepMania sets the offset, and by which rule** (D14: `OsuToSM` had `0.0`; D42: `QuaToSM`
+had the minimum over all stacked rows) -/
 theorem sm_offset_rules :
     (metaExprs "set" "offset").map (fun p => (p.1, offsetRuleOf p.2)) =
       [("BMSToSM.convert", some .zero), ("O2JToSM.convert", some .zero), ("O2JToSM.convert_merge", some .zero),
-       ("OsuToSM.convert", some .firstTempo), ("QuaToSM.convert", some .minAll)] ∧
+       ("OsuToSM.convert", some .firstTempo), ("QuaToSM.convert", some .firstTempo)] ∧
     (Generated.converters.filter (·.tgtGame == "sm")).map (·.name) = (metaExprs "set" "offset").map (·.1) := by
   decide +kernel
 
@@ -157,7 +161,7 @@ def OffsetOk (r : OffsetRule) (a : AChart) (svs : List Rat) : Prop := offsetBy r
 instance (r : OffsetRule) (a : AChart) (svs : List Rat) : Decidable (OffsetOk r a svs) := by
   unfold OffsetOk; infer_instance
 
-/-- `OsuToSM` (rule `first_offset()`, D14 repaired): established for every chart -/
+/-- `OsuToSM` and `QuaToSM` (rule `first_offset()`, D14 and D42 repaired): established for every chart -/
 theorem offset_established_first (a : AChart) (svs : List Rat) : OffsetOk .firstTempo a svs := rfl
 
 /-- `BMSToSM`, `O2JToSM` (rule `0.0`): established when the source's first tempo point is at 0 ms -/
@@ -166,15 +170,16 @@ theorem offset_established_zero (a : AChart) (svs : List Rat) (h : firstTempo a 
 
 example : OffsetOk .zero ⟨[(500, 1)], [], [(0, 120), (2000, 60)]⟩ [] := by decide +kernel
 
-/-- `QuaToSM` (rule `stack().offset.min()`): established only when nothing precedes the first tempo point … -/
+/-- the rule `stack().offset.min()` that `QuaToSM` had before D42 was repaired (no shipped converter uses it any more:
+`sm_offset_rules`): established only when nothing precedes the first tempo point … -/
 theorem offset_established_min (a : AChart) (svs : List Rat) (h : minTime a svs = firstTempo a) : OffsetOk .minAll a svs := h
 
 example : OffsetOk .minAll ⟨[(1000, 0)], [], [(1000, 120)]⟩ [1000, 1500] := by decide +kernel
 
-/-- … and fails as soon as a scroll velocity (or a note) does: **open finding N09a** — a Quaver chart with a scroll
+/-- … and fails as soon as a scroll velocity (or a note) does: **finding D42 (repaired)** — a Quaver chart with a scroll
 velocity at 0 ms and its tempo point and first note at 1000 ms gets `#OFFSET` 0 while the writer counts beats from the
 tempo point: everything is written 1000 ms early. -/
-theorem quaToSM_offset_counterexample : ¬ OffsetOk .minAll ⟨[(1000, 0), (1500, 3)], [], [(1000, 120)]⟩ [0] := by
+theorem minAll_offset_counterexample : ¬ OffsetOk .minAll ⟨[(1000, 0), (1500, 3)], [], [(1000, 120)]⟩ [0] := by
   decide +kernel
 
 /-- an O2Jam level's tempo list starts with the header tempo at 0 ms: the rule `0.0` of `O2JToSM` names its first point -/
@@ -228,5 +233,53 @@ theorem into_qua_objects_partial (c : Qua.Chart) (d : Qua.Doc) (hm : Qua.MetaOk 
     have ht : (Qua.truncI h.offset : Rat) + ((Qua.truncI (h.offset + h.length) : Rat) - (Qua.truncI h.offset : Rat)) =
         (Qua.truncI (h.offset + h.length) : Rat) := by linarith
     simp [closeHold, Qua.Spec.qHold, closeTime_ms_trunc, ht]
+
+/-! ## links 2 + 3 chained: convert, then write as Quaver (all converters, all sources) -/
+
+theorem paired_of_perm_left {α β} (R : α → β → Prop) (as as₂ : List α) (bs : List β) (hp : as.Perm as₂)
+    (h : Paired R as bs) : Paired R as₂ bs := by
+  obtain ⟨as', bs', h1, h2, hz⟩ := h
+  exact ⟨as', bs', h1.trans hp, h2, hz⟩
+
+/-- non-vacuity of the content link on abstract charts: a two-hit, one-hold source map and its conversion shifted by 1 -/
+example :
+    let fh : Convert.Frame := ⟨[5, 2], [("offset", [.num 10, .num 20]), ("column", [.num 0, .num 3])]⟩
+    let fl : Convert.Frame := ⟨[0], [("offset", [.num 30]), ("column", [.num 1]), ("length", [.num 500])]⟩
+    let fb : Convert.Frame := ⟨[0], [("offset", [.num 0]), ("bpm", [.num 120])]⟩
+    let th : Convert.Frame := ⟨[0, 1], [("offset", [.num 20, .num 10]), ("column", [.num 4, .num 1])]⟩
+    let tl : Convert.Frame := ⟨[0], [("offset", [.num 30]), ("column", [.num 2]), ("length", [.num 500])]⟩
+    Convert.contentOk 1 ⟨[("hits", fh), ("holds", fl), ("bpms", fb)], [], ""⟩ ⟨th, tl, fb, none, []⟩ = true ∧
+    (ofTChart ⟨th, tl, fb, none, []⟩).hits = [(20, 4), (10, 1)] := by decide +kernel
+
+/-- the in-memory Quaver chart holds exactly the hit and hold rows of the converted frames (the representation glue
+between C08's frames and C06's chart type: the reader side of a `QuaMap` is its list frames) -/
+def Represents (qc : Qua.Chart) (t : Convert.TChart) : Prop :=
+  (ofQua qc).hits = (ofTChart t).hits ∧ (ofQua qc).holds = (ofTChart t).holds
+
+/-- **convert, then write as Quaver** (C08 `converters_spec` + C06 `qua_write_denotes`, chained over `AChart`): for each
+of the 17 generated converter entries, every well-formed source (any row labels, any number of charts) and shift
+argument, every source chart `m` with its converted chart `t`, and every Quaver chart `qc` that holds `t`'s rows and is
+written successfully: the written document has a denotation, and that denotation carries the hits and holds of the
+SOURCE chart `m` — columns moved by the shift argument only, every head and tail less than 1 ms away.
+`_partial`: objects only (tempo timeline evaluated, not proved), and the reader link (file → `m`) and the
+frames ↔ chart representation (`Represents`) are hypotheses. -/
+theorem convert_write_qua_objects_partial : ∀ c ∈ Generated.converters,
+    ∀ (src : Convert.Src) (k : Int) (out : Convert.Out),
+    Convert.srcOk Convert.tables c src = true → Convert.convert Convert.tables c src k = .ok out →
+    ∀ p ∈ src.maps.zip out.pairs, ∀ (qc : Qua.Chart) (d : Qua.Doc),
+      Represents qc p.2.2 → Qua.MetaOk qc.info → Qua.Spec.ksLists qc = true → Qua.write qc = .ok d →
+      ∃ c', Qua.Spec.denote d = .ok c' ∧
+        ObjectsClose 0 .ms false 0 (shiftCols (Convert.effShift c k) (ofSrcMap p.1)) (ofQua c') := by
+  intro c hc src k out hsrc hconv p hp qc d hrep hm hk hw
+  have hcontent : (src.maps.zip out.pairs).all (fun p => Convert.contentOk (Convert.effShift c k) p.1 p.2.2) = true :=
+    (Convert.converters_spec c hc src k out hsrc hconv).2.1
+  have hp' := List.all_eq_true.mp hcontent p hp
+  obtain ⟨hh, hl, _⟩ := contentOk_abstract _ _ _ hp'
+  obtain ⟨c', hden, hobj⟩ := into_qua_objects_partial qc d hm hk hw
+  refine ⟨c', hden, ?_, ?_⟩
+  · have := paired_of_perm_left _ _ _ _ (hrep.1 ▸ hh) hobj.1
+    exact this
+  · have := paired_of_perm_left _ _ _ _ (hrep.2 ▸ hl) hobj.2
+    exact this
 
 end Reamber.Pipeline
